@@ -3,7 +3,7 @@
 Symbolic: the characters of the inserted layout (filler slots over {space, tab}, comment bodies of
 arbitrary characters, a case choice per letter of mnemonics / suffixes / index registers / hex
 digits) and the data values of the templates.  Enumerated: template programs x insertion
-position x kind of change; statement runs moved into an .include file."""
+position x kind of change; statement runs moved into an .include file (runs of <= 2 lines also into a file without a final newline)."""
 import re
 
 import z3
@@ -16,7 +16,7 @@ PROPERTY = "C16"
 
 META = {
     "bounds": {
-        "quick": "16 template programs (one of realistic size: macros applying macros, named scope, three `*=` blocks, relocated part) + the 2 repository samples; one layout change at a time at every applicable position: indentation (1-2 chars of {space,tab}), trailing spaces (1-2), spaces next to operators/commas/brackets, blank lines, full-line and end-of-line ; comments and /* */ comments with 0, 1 and 2 symbolic body characters, per-letter case of every mnemonic / suffix / index register / hex literal; every contiguous balanced statement run of <= 5 lines (whole macro definitions / scopes included) moved into an .include file; data values symbolic",
+        "quick": "17 template programs (one of realistic size: macros applying macros, named scope, three `*=` blocks, relocated part) + the 2 repository samples; one layout change at a time at every applicable position: indentation (1-2 chars of {space,tab}), trailing spaces (1-2), spaces next to operators/commas/brackets, blank lines, full-line and end-of-line ; comments and /* */ comments with 0, 1 and 2 symbolic body characters, per-letter case of every mnemonic / suffix / index register / hex literal; every contiguous balanced statement run of <= 5 lines (whole macro definitions / scopes included) moved into an .include file (runs of <= 2 lines also into a file without a final newline); data values symbolic",
         "thorough": "same with 3 symbolic comment characters, pairs of simultaneous changes (VERIF_SEED-drawn 300 pairs), include runs of <= 8 lines",
     },
     "outside": ["compositions of more than two changes", "layout changes not listed in the property (tabs before operands, spaces before ':' ...)", "comment bodies longer than 3 characters"],
@@ -45,6 +45,8 @@ TEMPLATES = [
     # a program of realistic size and mix (macros applying macros, loop in a macro, named scope with exported labels,
     # second `*=` block, relocated routine, forward references)
     "*=0x8000\nk := 0x12\n.macro store(addr, val) {\nlda.w #val\nsta.l addr\n}\n.macro fill(base, n) {\n.for i := 0, n {\nstore(base + i * 2, i)\n}\n}\n.scope gfx {\ninit:\nfill(0x7e2000, 2)\nrts\ntable:\n.dw table, v + k\n}\n*=0x018000\nmain:\njsr.w gfx.init\nloop:\ndex\nbne loop\n.dl gfx.table, fwd\nstore(fwd, k & 0xff)\n@=0x7e1000\nram:\nlda 0x10,x\njmp.w ram\n*=0x028000\nfwd:\n.db 1, 2\n.dl main, ram\n",
+    # mnemonics that exist with and without an operand, operands of a single character
+    "*=0x8000\nn := 3\nasl\nasl 4\ninc\ndec n\ninc 5\nror\nrol 7\nnop\n",
     # string literals holding layout characters: TAB, runs of spaces, comment openers
     "*=0x8000\n.ascii 'a\tb'\nl1:\n.ascii '\t\tz;not a comment'\n.ascii '  two  spaces  '\n.ascii '/* no comment */'\n.dl l1\n.dw v\n",
 ]
@@ -142,6 +144,8 @@ def jobs(tier, seed):
                 if not ok or depth != 0 or run_text.count("(") != run_text.count(")"):
                     continue  # the run would cut a block in two
                 out.append({"id": f"t{ti:02d}/include/{a}-{b}", "fam": "include", "tpl": ti, "a": a, "b": b})
+                if b - a <= 2:
+                    out.append({"id": f"t{ti:02d}/include-nonl/{a}-{b}", "fam": "include", "tpl": ti, "a": a, "b": b, "nonl": True})
     if tier == "thorough":
         import random
 
@@ -212,7 +216,7 @@ def run(spec, cx):
     if spec["fam"] == "include":
         lines = text.split("\n")[:-1]
         a, b = spec["a"], spec["b"]
-        inc = "\n".join(lines[a:b]) + "\n"
+        inc = "\n".join(lines[a:b]) + ("" if spec.get("nonl") else "\n")     # with / without a final newline in the included file
         main = "\n".join(lines[:a] + [".include 'inc.s'"] + lines[b:]) + "\n"
         return (base, _assemble(main, syms, {"inc.s": inc}, cx))
     atoms, sites = analyse(text)
